@@ -343,6 +343,9 @@ func (p *Parser) parseBuffer(buf []byte, last bool) error {
 			if depth < 0 || 0 <= p.starts[depth] {
 				return p.newError(off, "unexpected object close")
 			}
+			if p.mode == valueMap { // a member value is still expected after the colon
+				return p.newError(off, "unexpected object close")
+			}
 			if 256 < len(p.mode) && p.mode[256] == 'n' {
 				p.add(p.num.AsNum())
 			}
